@@ -109,6 +109,17 @@ CHECKS = {
     note="find_optimal_order (nested comprehensions, closure, Munkres), get_ordered_input_list / ListGrader.check (comprehensions over effectful calls), groupify/ungroupify (nested comprehensions) "
          "and get_best_result (numpy) are outside the verifier's subset: decided by the bounded tier only. Subgrader results are arbitrary well-formed entries (A15).",
     design="6/C05"),
+ 'C02': dict(
+    technique="contract-based deductive verification (pyvc) of format_messages + source scans of the exception family and handler shape (nullary facts); bounded hostile-input runs as stand-in for the evaluator/numpy/pyparsing paths",
+    text="Proved: format_messages only rewrites message fields (strings) and keeps every other key, grade and ok of every entry (all list lengths). Decided exhaustively by scanning the real "
+         "source on every run (facts without inputs; back end 'ast-scan'; an unmatched scan is undecided, never a violation): all library exception classes derive from MITxError (allow-list: the two "
+         "internal control-flow exceptions), none overrides the constructor (so error.__class__(text) is well-formed), numpy floating-point errors are routed to Python exceptions at import, and "
+         "in AbstractGrader.__call__ self.check(...) runs inside a single `except Exception` whose every path raises (debug: re-raise; MITxError: same class with <br/>; else StudentFacingError). "
+         "NOT proved: the contract of AbstractGrader.__call__ is drafted (exsures: with debug off every escaping exception is an MITxError) but z3 times out on 6 of its 49 conditions, so it is "
+         "excluded from the counts. Bounded: every grader x hostile strings x non-text objects; termination = 5 s limit per call.",
+    note="Assumed: A10 ensure_text_inputs contract (trusted; exercised by the bounded tier, which corrected an over-strong first version); termination for arbitrary input is not decidable by contracts on this code (A14). "
+         "Which specific error a malformed formula provokes inside pyparsing/numpy is irrelevant to the property thanks to the handler and is not analysed.",
+    design="6/C02"),
 }
 
 NOT_YET = {}
